@@ -117,6 +117,8 @@ def resolve(path, env):
     """Coq name of a C access path: an explicit alias for the full path, else the last field name
     (itself possibly aliased)."""
     if path in env: return env[path]
+    for k, v in env.items():                      # an alias may name a suffix of the path (ar1->size for iter->ar1->size)
+        if ("->" in k or "." in k) and (path.endswith("->" + k) or path.endswith("." + k)): return v
     last = re.split(r"->|\.", path)[-1]
     return env.get(last, last)
 
